@@ -252,14 +252,16 @@ func isAligned(fromDomain, authDomain string, mode AlignmentMode) bool {
 func ExtractFromDomain(hdr textproto.Header) (string, error) {
 	// TODO(GH emersion/go-message#75): Add textproto.Header.Count method.
 	var firstFrom string
+	fromCount := 0
 	for fields := hdr.FieldsByKey("From"); fields.Next(); {
-		if firstFrom == "" {
-			firstFrom = fields.Value()
-		} else {
+		// Count fields, a field with empty value is a field too.
+		fromCount++
+		if fromCount > 1 {
 			return "", errors.New("dmarc: multiple From header fields are not allowed")
 		}
+		firstFrom = fields.Value()
 	}
-	if firstFrom == "" {
+	if fromCount == 0 {
 		return "", errors.New("dmarc: missing From header field")
 	}
 
